@@ -39,6 +39,8 @@ def scratch_root():
 def extract(repo="/repo", config="default", crate="tls_parser", want_mir=True, keep=False, expect_fail=False):
     """Returns (facts dict, info dict). Raises ExtractError if the crate does not compile
     (unless expect_fail, in which case returns (None, info) with info['stderr'])."""
+    if config == "default" and os.environ.get("TLSVERIF_CONFIG"):
+        config = os.environ["TLSVERIF_CONFIG"]  # thorough tier: re-run a property's rules under another buildable configuration
     if not os.path.exists(DRIVER):
         raise ExtractError("driver not built: run MANIFEST.setup_cmd (cargo +nightly build --release in /verif/driver)")
     work = tempfile.mkdtemp(prefix="x-", dir=scratch_root())
